@@ -880,7 +880,53 @@ def c18_18(ctx):
     return [ctx.ok(spec, "the Golomb coder receives the ascending sequence for every construction order", fn, mod, key="sorted-serialise")]
 
 
+def c18_19(ctx):
+    """decoding inverts encoding for the filter object: CompactFilter.parse(key, bytes).serialize() is evaluated on BIP158 encodings written by
+    the rule's own Golomb-Rice coder -- N = 0, 1, 2, 7 values, with large gaps, with adjacent values and with EQUAL values (two elements that
+    hash to the same number are both coded, as a zero delta: BIP158 removes duplicate elements, not duplicate hashes) -- and must give back
+    the bytes, and .hash() their double-SHA256 (the filter hash the header chain commits to)"""
+    import hashlib
+    from sa.cells import ClassRef, Evaluator, Raised, Undecided
+    spec = "compactfilter:CompactFilter.serialize"
+    mod, fn = rl.get(ctx, spec)
+
+    def gcs(vals):
+        bits, last = [], 0
+        for v in vals:
+            d = v - last
+            last = v
+            bits += [1] * (d >> 19) + [0] + [(d >> (18 - i)) & 1 for i in range(19)]
+        bits += [0] * (-len(bits) % 8)
+        body = bytes(int("".join(str(b) for b in bits[i:i + 8]), 2) for i in range(0, len(bits), 8))
+        return bytes([len(vals)]) + body
+    seqs = [("no value", []), ("one value", [4242]), ("two distant values", [7, 3000000]), ("adjacent values", [100, 101, 102]),
+            ("two equal values (two elements with one hash)", [5, 5]), ("equal values among others", [9, 31, 31, 31, 600000, 600000, 1500000])]
+    key = bytes(range(16))
+    for label, vals in seqs:
+        ctx.count("cells")
+        data = gcs(vals)
+        try:
+            ev = Evaluator(ctx.repo, max_steps=2000000)
+            o = ev.call("compactfilter:CompactFilter.parse", [key, data], self_obj=ClassRef("compactfilter", "CompactFilter"))
+            back = ev.call(spec, [], self_obj=o)
+            h = ev.call("compactfilter:CompactFilter.hash", [], self_obj=o)
+        except Raised as x:
+            return [ctx.bad(spec, "a BIP158 filter with %s: parse / serialize raises %s" % (label, x.name), fn, mod, key="filter-round-trip")]
+        except Undecided as u:
+            return [ctx.err(spec, "filter round trip not evaluable: %s" % u, fn, mod)]
+        if back != data:
+            return [ctx.bad(spec, "a BIP158 filter with %s (%d coded values) does not serialise back to the bytes it was parsed from (N = %s is written): decoding does not invert "
+                                  "encoding, and hash() is not the filter hash the header chain commits to" % (label, len(vals), back[0] if isinstance(back, bytes) and back else "?"),
+                            fn, mod, key="filter-round-trip")]
+        if h != hashlib.sha256(hashlib.sha256(data).digest()).digest():
+            return [ctx.bad(spec, "a BIP158 filter with %s: hash() is not the double-SHA256 of the filter bytes" % label, fn, mod, key="filter-round-trip")]
+    return [ctx.ok(spec, "%d encodings (N = 0, 1, 2, 3, 7; distant, adjacent and equal values) parse and serialise back byte for byte; hash() is their double-SHA256" % len(seqs),
+                   fn, mod, key="filter-round-trip")]
+
+
+
 OBLIGATIONS = [
+    ("C18.19", "CELLS filter round trip", c18_19),
     ("C18.18", "CELLS order", c18_18),
     ("C18.17", "BITS (shared C17.10)", c18_17),
     ("C18.15", "VERDICT-SOURCE", c18_15),
